@@ -143,3 +143,25 @@ def bury(loop: Any) -> None:
 
 def clear_graveyard() -> None:
     GRAVEYARD.clear()
+
+
+def make_yielding(store: Any, only_run_queries: bool = True) -> Any:
+    """Model a network-backed store (Postgres, agent-data): ``query`` really suspends.  The read happens first (a
+    snapshot of the row), then the coroutine waits at a harness gate before it returns - so other tasks can run
+    between a component's read of the handler row and whatever it does next.  Gates are released by the explorer;
+    the default choice (oldest gate first) reproduces the non-yielding behaviour."""
+    from vmc.engine import gate
+
+    orig_query = store.query
+
+    async def query(q: Any) -> Any:
+        res = await orig_query(q)
+        if not only_run_queries or getattr(q, "run_id_in", None):
+            import copy
+
+            res = [copy.deepcopy(h) for h in res]  # a row snapshot, not the live object the memory store hands out
+            await gate("store.query")
+        return res
+
+    store.query = query
+    return store
